@@ -323,6 +323,7 @@ impl Check for C14Check {
             Phase::random("random", tier.pick(250_000, 2_500_000), 96).with_min_tape(24).with_chunk(1024),
             Phase::exhaustive("literal-pairs", { let n = literal_pool().len() as u64; n * n * 2 }).with_chunk(64),
             Phase::exhaustive("integers-beyond-32-bits", (BIG_INTEGERS.len() * 6) as u64).with_chunk(8),
+            Phase::exhaustive("size-sweep", (crate::model::pipeline::SIZE_SWEEP.len() * 8) as u64).with_chunk(4),
         ]
     }
     fn run(&self, _tier: Tier, phase: usize, input: &Input, ctx: &mut CaseCtx) {
@@ -436,6 +437,62 @@ impl Check for C14Check {
                             if !same(&got, &expected) {
                                 ctx.fail(format!("literal-denotes-something-else:big-integer:{}", if radix.is_some() { "radix" } else { "decimal" }), format!("literal {:?} on {} evaluates to {} instead of {} (or, for a radix form, being rejected)", spelling, imp.name(), got, expected));
                             }
+                        }
+                    }
+                }
+            }
+            (7, Input::Index(i)) => {
+                // literals of every length around the usual thresholds: texts (ASCII, multi-byte, escaped), byte lists in both
+                // forms, symbol names, long digit strings
+                let n = crate::model::pipeline::SIZE_SWEEP[(*i / 8) as usize];
+                match *i % 8 {
+                    0 => {
+                        let chars: Vec<char> = (0..n).map(|k| (b'a' + (k % 26) as u8) as char).collect();
+                        if let Some(sp) = spell_text(&chars, 1, false) {
+                            self.judge("text", &sp, &V::Text(chars), None, None, true, ctx);
+                        }
+                    }
+                    1 => {
+                        let chars: Vec<char> = (0..n).map(|k| ['é', '漢', 'a', '😀'][k % 4]).collect();
+                        if let Some(sp) = spell_text(&chars, 3, false) {
+                            self.judge("text", &sp, &V::Text(chars), None, None, true, ctx);
+                        }
+                    }
+                    2 => {
+                        let chars: Vec<char> = (0..n).map(|k| ['é', '\n', '"', '\\'][k % 4]).collect();
+                        if let Some(sp) = spell_text(&chars, 1, true) {
+                            self.judge("text", &sp, &V::Text(chars), None, None, true, ctx);
+                        }
+                    }
+                    3 => {
+                        let bytes: Vec<u8> = (0..n).map(|k| b'a' + (k % 26) as u8).collect();
+                        if let Some(sp) = spell_bytes_quoted(&bytes) {
+                            self.judge("bytes", &sp, &V::Bytes(bytes), None, None, true, ctx);
+                        }
+                    }
+                    4 => {
+                        let bytes: Vec<u8> = (0..n).map(|k| (k * 37 % 256) as u8).collect();
+                        if let Some(sp) = spell_bytes_numeric(&bytes, 3) {
+                            self.judge("bytes", &sp, &V::Bytes(bytes), None, None, true, ctx);
+                        }
+                    }
+                    5 => {
+                        let name: String = (0..n).map(|k| ['n', 'é', '_', '7', '漢'][k % 5]).collect();
+                        let name = format!("s{}", name);
+                        self.judge("symbol", &format!(":{}", name), &V::Sym(symbol_value(&name)), None, Some(&name), true, ctx);
+                    }
+                    6 => {
+                        // a small integer written with n leading zeros' worth of separators: 1_0_0_..._7 has the value of its digits
+                        let digits = format!("{}", 1_000_000 + n as i32);
+                        let spelled: String = digits.chars().enumerate().map(|(k, c)| if k > 0 { format!("{}{}", "_".repeat(1 + n % 3), c) } else { c.to_string() }).collect();
+                        self.judge("integer", &spelled, &V::Int(1_000_000 + n as i32), None, None, true, ctx);
+                    }
+                    _ => {
+                        // a fraction with n digits after the point
+                        let frac: String = (0..n).map(|k| char::from(b'0' + ((k * 7 + 1) % 10) as u8)).collect();
+                        let spelled = format!("3.{}", frac);
+                        if let Ok(v) = spelled.parse::<f64>() {
+                            self.judge("float", &spelled, &V::Float(v), None, None, true, ctx);
                         }
                     }
                 }
